@@ -49,6 +49,24 @@ TABLE = {
             "(cross-check of the TLA+ schema automaton), read back, and TLC validates the abstract document and the "
             "read-back descriptor (bit identity of doubles classified by struct.pack in the projection).",
             "TLC, lxml as cross-check of the schema transcription, struct.pack bit comparison in the projection"),
+    "C11": ("Cache.tla / MC_Cache.tla / Trace_Cache.tla",
+            "The contract has primary data only (lattice poses, quarter-turn motions): every query = Recompute(primary). "
+            "The implementation-shaped model adds the caches the code keeps (occupancy set, spatial index snapshot, cycle "
+            "windows); TLC checks answer = Recompute over all interleavings of mutators and cache-filling queries to depth "
+            "4 (5), and each missing-invalidation deviation constant yields the stale counterexample. A transition cover of "
+            "the dumped graph and seeded random histories run on real objects; TLC validates every logged answer against "
+            "the lattice recomputation, the agreement with a freshly constructed twin, and the history contract of "
+            "update_initial_state.",
+            "TLC, projection of primary data through public accessors, twin construction through public constructors"),
+    "C20": ("LaneletGeom.tla / MC_LaneletGeom.tla / Trace_LaneletGeom.tla",
+            "Exact rational arc-length geometry on integer-length polylines (Cum, PointAt, BoundaryAt, Merge laws) and an "
+            "algorithm-shaped model of the breadth-wise successor / predecessor expansion on all digraphs of 3 (thorough 4: "
+            "4096) lanelets x lengths x ranges: TLC checks the laws, that the result satisfies ValidRoutes and termination "
+            "(<>done under weak fairness, no state constraint); a deviation constant (no loop guard) gives the expected "
+            "counterexample. All enumerated polylines, merges and route queries plus seeded random 5-6 lanelet digraphs are "
+            "executed (route calls under an alarm) and TLC validates distances, interpolated points, merged boundaries and "
+            "the ValidRoutes predicate on the returned routes.",
+            "TLC, rounding of returned floats to a fixed rational grid with an exactness flag, wall-clock alarm for termination"),
 }
 
 PENDING_REASON = "check not built yet in this round (specification module planned in DESIGN.md section 4); not claimed"
